@@ -30,17 +30,17 @@ package tlb
 //     A. Hashmap / HashmapE (alternating) with Uint8 keys -> Uint32: the two named regressions {01:7,81:7} and
 //        {12:7,13:9,92:7,93:9}, 8 further hand-made sets, and the dense sets {0..2^k-1} and {i<<(8-k)} for k = 1..6 [1..8]
 //        with values constant and i mod 2, 4, 8;
-//     B. product key sets H x L (H: 7 sets of the leading nibble, L: 6 sets of the last byte; value a function of the last
+//     B. product key sets H x L (H: 7 [9] sets of the leading nibble, L: 6 [9] sets of the last byte; value a function of the last
 //        byte only / constant / its parity, so that the halves below a fork on H are content-identical) for key widths
 //        12 (Uint12), 16, 32 and 256 (Bits256) bits; 16-bit keys also with values that own a child cell;
-//     C. 300 [6000] random dictionaries, 8 / 16-bit clustered keys, 2..12 keys, values from an alphabet of 2;
+//     C. 300 [30000] random dictionaries, 8 / 16-bit clustered keys, 2..12 [2..24] keys, values from an alphabet of 2;
 //     every present key is proven (fresh and shared prover alternate), up to 6 absent keys per dictionary are refused.
 //   TestVerifStandin_C18_RepeatedCursor
 //     10 hand-made trees (one *Cell referenced 2..4 times; distinct cells with equal content as siblings, as cousins, at
-//     different depths, in a chain of twins; combinations) x every single position, every pair [and every triple] of
+//     different depths, in a chain of twins; combinations) x every single position, every pair [triple, quadruple] of
 //     positions of the expanded tree asked to be pruned through MerkleProver.Cursor / Ref / Prune / CreateProof.
 //   TestVerifStandin_C18_RepeatedRandom
-//     400 [12000] random trees, height <= 4 [5], fan-out 0..4, cell data from an alphabet of 1..3 strings, 15% of the
+//     400 [60000] random trees, height <= 4 [5], fan-out 0..4, cell data from an alphabet of 1..3 strings, 15% of the
 //     references re-use an earlier cell (same pointer), at most 300 [600] positions; per tree: a "path proof" (siblings of a
 //     random root-to-leaf walk), one single position, one random set of 2..4 positions and, when the tree has two distinct
 //     cells with equal content, one of the two alone.
@@ -65,7 +65,7 @@ import (
 type c18bEnv struct {
 	fails     *vhFailures
 	stat      *vhStat
-	twinCases int // cases in which a content-identical twin of a pruned cell had to survive (and was looked at)
+	twinCases int // cases in which a content-identical twin of a pruned cell had to survive
 	sameNode  int // positions accepted as pruned because they hold the very cell that was asked to be pruned elsewhere
 	// cause used when a cell that nobody asked to prune is missing from the proof
 	unaskedCause string
@@ -198,6 +198,7 @@ func (e *c18bEnv) checkProof(what string, proof []byte, orig *boc.Cell, refH *c1
 	// what was asked
 	must := map[string]bool{}
 	mayCell := map[*boc.Cell]bool{}
+	askedCell := map[*boc.Cell]bool{}
 	askedHash := map[[32]byte]bool{}
 	for _, p := range asked {
 		c := c18bCellAt(orig, p)
@@ -206,6 +207,7 @@ func (e *c18bEnv) checkProof(what string, proof []byte, orig *boc.Cell, refH *c1
 			return nil
 		}
 		must[c18bPos(p)] = true
+		askedCell[c] = true
 		if sameNodeOK {
 			mayCell[c] = true
 		}
@@ -235,7 +237,11 @@ func (e *c18bEnv) checkProof(what string, proof []byte, orig *boc.Cell, refH *c1
 				e.sameNode++
 			default:
 				note := ""
-				if askedHash[v.hash] {
+				if askedCell[o] {
+					twin = true
+					note = " (it is the very cell that was asked to be pruned at another position: one cell referenced twice)"
+				} else if askedHash[v.hash] {
+					twin = true
 					note = " (it is a content-identical twin of a cell that was asked to be pruned)"
 				}
 				e.fails.add(e.unaskedCause, "%s: the cell at position %s was not asked to be pruned but the proof holds a pruned branch there%s; original sub-tree %.300s; proof %x", what, ps, note, c18Dump(o), proof)
@@ -582,8 +588,8 @@ func (e *c18bEnv) dictsA(thorough, viaBoc bool) {
 		maxK = 8
 	}
 	for k := 1; k <= maxK; k++ {
-		for _, shift := range []int{0, 8 - k} {
-			if k == 8 && shift != 0 {
+		for si, shift := range []int{0, 8 - k} {
+			if si == 1 && shift == 0 {
 				continue
 			}
 			for _, period := range []int{1, 2, 4, 8} {
@@ -641,6 +647,10 @@ func (e *c18bEnv) dictsB(thorough, viaBoc bool) {
 		{"byLastByte", func(h, l int) Uint32 { return Uint32(100 + l) }},
 		{"byParity", func(h, l int) Uint32 { return Uint32(7 + 2*(l&1)) }},
 	}
+	if thorough {
+		hSets = append(hSets, []int{0, 1, 2, 3, 4, 5, 6, 7, 8, 9, 10, 11, 12, 13, 14, 15}, []int{0x3, 0x7, 0xb, 0xf})
+		lSets = append(lSets, []int{0x40, 0x41, 0x42, 0x43, 0x44, 0x45, 0x46, 0x47, 0x48, 0x49, 0x4a, 0x4b, 0x4c, 0x4d, 0x4e, 0x4f}, []int{0x00, 0x80}, []int{0x7f, 0x80, 0xff})
+	}
 	n := 0
 	for hi, hs := range hSets {
 		for li, ls := range lSets {
@@ -671,18 +681,18 @@ func (e *c18bEnv) dictsB(thorough, viaBoc bool) {
 }
 
 func (e *c18bEnv) dictsC(thorough bool, rng *rand.Rand) {
-	rounds := 300
+	rounds, maxN := 300, 12
 	if thorough {
-		rounds = 6000
+		rounds, maxN = 30000, 24
 	}
 	for r := 0; r < rounds; r++ {
-		n := 2 + rng.Intn(11)
+		n := 2 + rng.Intn(maxN-1)
 		o := c18bDictOpts{useE: r%2 == 0, sharedProver: r%3 == 0}
 		if r%2 == 0 {
 			base := Uint8(rng.Intn(256)) & 0x70
 			set := map[Uint8]bool{}
 			for i := 0; i < n; i++ {
-				set[base|Uint8(rng.Intn(2))<<7|Uint8(rng.Intn(8))] = true
+				set[base|Uint8(rng.Intn(2))<<7|Uint8(rng.Intn(maxN*2/3))] = true
 			}
 			var keys []Uint8
 			for k := range set {
@@ -698,7 +708,7 @@ func (e *c18bEnv) dictsC(thorough bool, rng *rand.Rand) {
 			base := Uint16(rng.Intn(1<<16)) & 0x3ff0
 			set := map[Uint16]bool{}
 			for i := 0; i < n; i++ {
-				set[base|Uint16(rng.Intn(4))<<14|Uint16(rng.Intn(4))] = true
+				set[base|Uint16(rng.Intn(4))<<14|Uint16(rng.Intn(maxN/3))] = true
 			}
 			var keys []Uint16
 			for k := range set {
@@ -875,6 +885,9 @@ func TestVerifStandin_C18_RepeatedCursor(t *testing.T) {
 				if thorough {
 					for k := j + 1; k < len(pos); k++ {
 						run([][]int{pos[i], pos[j], pos[k]})
+						for l := k + 1; l < len(pos); l++ {
+							run([][]int{pos[l], pos[i], pos[k], pos[j]})
+						}
 					}
 				}
 			}
@@ -924,7 +937,7 @@ func TestVerifStandin_C18_RepeatedRandom(t *testing.T) {
 	rng := rand.New(rand.NewSource(c18Seed()))
 	trees, maxDepth, maxPos := 400, 4, 300
 	if vhThorough() {
-		trees, maxDepth, maxPos = 12000, 5, 600
+		trees, maxDepth, maxPos = 60000, 5, 600
 	}
 	words := []string{"", "1", "10110001", "0", "111100001111"}
 	made, twinTrees := 0, 0
